@@ -3,7 +3,7 @@
 From Pakhi Require Import Base Float64 Syntax Tables Lexer.
 From Pakhi.Proofs Require Import TableFacts.
 From Coq Require Import Lia.
-Open Scope nat_scope.
+Local Open Scope nat_scope.
 (* the generated tables stay abstract in these proofs: they hold for whatever tables the source has *)
 Local Opaque lexer_digits single_ops double_ops keywords numeric_ranges minus_binary_after ident_extra_chars.
 
@@ -25,7 +25,7 @@ Qed.
 
 Lemma num_scan_outcome rest : forall in_frac line file,
   match num_scan rest in_frac line file with
-  | Ok _ => True | Err e => e = mkErr ESyntax line file TagGeneric | _ => False end.
+  | Ok _ => True | Err e => e = mkErr0 ESyntax line file TagGeneric | _ => False end.
 Proof.
   induction rest as [|c r IH]; intros in_frac line file; simpl; [exact I|].
   destruct (N.eqb c c_dot).
@@ -39,7 +39,7 @@ Qed.
 Lemma consume_num_tail_spec sign body k line file :
   match consume_num_tail sign body k line file with
   | Ok (_, m) => k <= m <= k + length body
-  | Err e => e = mkErr ESyntax line file TagGeneric
+  | Err e => e = mkErr0 ESyntax line file TagGeneric
   | _ => False
   end.
 Proof.
@@ -52,7 +52,7 @@ Qed.
 Lemma consume_num_spec rest line file :
   match consume_num rest line file with
   | Ok (_, n) => n <= length rest
-  | Err e => e = mkErr ESyntax line file TagGeneric
+  | Err e => e = mkErr0 ESyntax line file TagGeneric
   | _ => False
   end.
 Proof.
@@ -113,7 +113,7 @@ Proof. induction rest as [|c r IH]; simpl; [lia|]. destruct (is_valid_identifier
 Lemma consume_spec rest line file prev : rest <> [] ->
   match consume rest line file prev with
   | Ok (_, c, _) => 1 <= c <= length rest
-  | Err e => e = mkErr ESyntax line file TagGeneric
+  | Err e => e = mkErr0 ESyntax line file TagGeneric
   | _ => False
   end.
 Proof.
